@@ -646,6 +646,10 @@ func genEcsCase(r *vlib.R, emit func(string)) int {
 			emit(fmt.Sprintf("ecs clampscope %d:%s/%d %s", fam, vlib.Hex(maskBytes(base, sb)), sb, src))
 		case k < 19:
 			emit(genWireFacts(r, spec))
+		case k < 20 && r.Chance(1, 3):
+			// the store's lifetime arithmetic: limits below the 5 s floor, TTLs outside the cache's bounds
+			emit(fmt.Sprintf("ecs capttl %d %d %s", vlib.Pick(r, []int{0, 1, 2, 4, 5, 6, 30, 300, 100000}),
+				vlib.Pick(r, []int{0, 1, 4, 5, 6, 29, 30, 31, 300, 86400, 86401, 200000}), vlib.B(r.Chance(2, 3))))
 		default:
 			emit(fmt.Sprintf("ecs reqscope %s %s", genClient(r, spec, true), genOpts(r, spec, 85, nil, true)))
 		}
@@ -754,6 +758,13 @@ func genPipeCase(r *vlib.R, emit func(string)) int {
 			copts = genECS(r, spec, s.ecs, false)
 		}
 		emit(fmt.Sprintf("pipe reject %s %s %s %s", s.client, proto, vlib.Pick(r, []string{"ahead", "ahead", "behind"}), copts))
+		count++
+	}
+	if r.Chance(1, 2) {
+		// the error branch: primary resolution fails, failover asks the fallback servers
+		s := vlib.Pick(r, sites)
+		proto := vlib.Pick(r, []string{"udp", "tcp", "wudp", "wudp", "rudp", "doh"})
+		emit(fmt.Sprintf("pipe failover %s %s %s", s.client, proto, genClientOpts(r, spec, proto, 90, s.ecs, true)))
 		count++
 	}
 	if pf > 0 {
@@ -960,8 +971,12 @@ func genL3Case(r *vlib.R, emit func(string)) int {
 		switch r.Intn(8) {
 		case 0:
 			return "-"
-		case 1:
-			return fmt.Sprintf("E%d.%d.%d.%s", map[int]int{4: 1, 6: 2}[fam], c, c, vlib.Hex(maskBytes(pickSame(r, fam), c)))
+		case 1, 2:
+			// an authority that does not echo what it was sent: some other network …
+			return fmt.Sprintf("E%d.%d.%d.%s", map[int]int{4: 1, 6: 2}[fam], c, max(1, c-r.Intn(3)), vlib.Hex(maskBytes(vlib.Pick(r, sites).ecs, c)))
+		case 3:
+			// … or the right address under a rewritten SOURCE
+			return fmt.Sprintf("T%d", max(1, min(w, c-1-r.Intn(4))))
 		}
 		return fmt.Sprintf("S%d", max(0, min(w, vlib.Pick(r, []int{c, c, c - 1, c + 1, spec.floor(fam), spec.floor(fam) + 1, 0, w, 1 + r.Intn(w)}))))
 	}
